@@ -30,7 +30,28 @@ OUT_OF_CLAIM = ['streams longer than the bound for the E1 clauses', 'thresholds 
                 'get_commonality() float value']
 STUBS = []
 
-FORMS = ['add', 'update_list', 'update_iter', 'update_mapping', 'update_kw', 'mixed', 'mapping_and_kw', 'list_and_kw', 'add_then_bulk']
+FORMS = ['add', 'update_list', 'update_iter', 'update_mapping', 'update_kw', 'mixed', 'mapping_and_kw', 'list_and_kw', 'add_then_bulk',
+         'update_duck', 'update_counter']
+
+
+class DuckMap:
+    def __init__(self, d):
+        self._d = dict(d)
+
+    def items(self):
+        return list(self._d.items())
+
+    def keys(self):
+        return list(self._d)
+
+    def __iter__(self):
+        return iter(self._d)
+
+    def __len__(self):
+        return len(self._d)
+
+    def __getitem__(self, k):
+        return self._d[k]
 
 
 def check_state(tc, truth, total, W, thr):
@@ -163,6 +184,13 @@ def _body(ti, form, n, ks):
                 tc.update(dict(collections.Counter(chunk)))
             elif f == 'update_kw':
                 tc.update(None, **dict(collections.Counter(chunk)))
+            elif f == 'update_duck':
+                tc.update(DuckMap(collections.Counter(chunk)))       # a mapping by duck typing only (items/keys/iter, no Mapping base)
+            elif f == 'update_counter':
+                src = ThresholdCounter(threshold=0.01)               # another ThresholdCounter as the source (keeps every count here)
+                for k in chunk:
+                    src.add(k)
+                tc.update(src)
             for k in chunk:
                 truth[k] += 1
                 total += 1
@@ -327,7 +355,7 @@ def obligations(tier):
     T = 170 if q else 1500
     for ti in range(len(THRESHOLDS)):
         for form in range(len(FORMS)):
-            if form in (1, 2, 4, 6, 7) and ti not in (1, 3):          # form 8 (bulk counts) runs for every threshold
+            if form in (1, 2, 4, 6, 7, 9, 10) and ti not in (1, 3):          # form 8 (bulk counts) runs for every threshold
                 continue
             need = ('dropped_keys',) if ti < 4 else ()
             obs.append(Ob('tc_stream', timeout=T, pins={'thr': ti, 'form': form, 'nmax': 7 if q else 9}, need_kinds=need))
